@@ -53,7 +53,22 @@ Theorem C09_instance_known_witness :
 Proof. exact raw_drop_known_witness. Qed.
 Print Assumptions C09_instance_known_witness.
 
-(* C09_wrappers: every wrapper / entry point ends with an empty ledger on every path. *)
+(* C09_wrappers: every wrapper / entry point ends with an empty ledger on every path (the
+   conjunction of the eight statements that follow, each also stated on its own). *)
+Theorem C09_wrappers :
+  forall temps : callee -> N -> list tstep, (forall c k, bal 0 (temps c k) = true) ->
+  forall dbg : bool,
+    (forall q w calls, Forall (good_op 0) calls -> returned (writer_life temps (current dbg) q w calls)) /\
+    (forall q w calls, Forall (good_op 0) calls -> returned (reader_life temps (current dbg) q w calls)) /\
+    (forall params dict calls x, Forall (good_op 0) (params ++ dict ++ calls) ->
+        returned (copy_life temps (current dbg) params dict calls x)) /\
+    (forall q w trivial calls, Forall (good_op 0) calls -> returned (oneshot_life temps (current dbg) q w trivial calls)) /\
+    (forall sh ts, good_threads 0 ts -> returned (multi_life temps (current dbg) sh ts empty_ledger)) /\
+    (forall sh n ts, good_threads 0 ts -> returned (multi_slice_life temps (current dbg) sh n ts)) /\
+    (forall custom state_size h, Forall (good_op 0) h -> returned (ffi_life temps (current dbg) custom state_size h)) /\
+    (forall params call, Forall (good_op 0) (params ++ [call]) -> returned (ffi_single_life temps (current dbg) params call)).
+Proof. exact wrappers_return. Qed.
+Print Assumptions C09_wrappers.
 
 (* writer: any sequence of write / flush calls, each possibly cut short by an I/O error,
    followed by into_inner or Drop *)
